@@ -209,7 +209,7 @@ Thm(e, d) == CASE Family = "C01" -> CoreThm(e, d)
                [] Family = "C02" -> ProjThm(e, d)
                [] Family \in {"C07", "C07d"} -> OpThm(e, d)
                [] Family \in {"C09", "C09n", "C10", "C10d", "C10k"} -> FnThm(e, d)
-               [] Family \in {"C16", "C06"} -> WellFormed(Outcomes(e, d))
+               [] Family \in {"C16", "C06", "C18", "C18p"} -> WellFormed(Outcomes(e, d))
 
 Holds == idx >= 0 =>
            IF Family = "C11" THEN LET c == CtxAt(g, idx) x == BaseAt(g, idx) IN \A d \in 1..Len(g.docs) : ErrThm(c, x, g.docs[d])
